@@ -2,7 +2,7 @@
    Statements only; proofs are in Base/Varint.v, Proofs/TWKB_proofs.v, Proofs/TWKBQuant_proofs.v.
    The theorems are about the Gallina model Model/TWKB.v (integer layer: ordinates are the already
    quantised int64 values) of geom/twkb_write.go and geom/twkb_parser.go with the repairs
-   fixes/F5 F6 F7 F15 F16 F17 F18 F31 F70 F71 applied.  The float <-> integer step (Model/TWKBQuant.v) is
+   fixes/F5 F6 F7 F15 F16 F17 F18 F31 F70 F71 F72 applied.  The float <-> integer step (Model/TWKBQuant.v) is
    tied to the implementation bit for bit by the correspondence run, not by a theorem. *)
 From Coq Require Import NArith ZArith List Bool.
 From SF Require Import Base.Outcome Base.Bytes Base.GeomAST Base.Varint Model.TWKB Model.TWKBQuant
@@ -210,3 +210,21 @@ Example rejects_example :
   must_reject {| o_pxy := 0; o_pz := None; o_pm := None; o_size := false; o_bbox := false;
                  o_close := false; o_ids := [7] |} (GPoint (MkPoint XY (Some (v2 1 2)))) = true.
 Proof. vm_compute. split; reflexivity. Qed.
+
+(* F72: an ID list whose length differs from the member count is refused also for an empty
+   geometry (MULTIPOINT EMPTY with two IDs) *)
+Example f72_empty_with_ids :
+  let o := {| o_pxy := 0; o_pz := None; o_pm := None; o_size := false; o_bbox := false;
+              o_close := false; o_ids := [1; 2] |} in
+  must_reject o (GMPoint XY []) = true /\ tmarshal o (GMPoint XY []) = Err EOther.
+Proof. vm_compute. split; reflexivity. Qed.
+
+(* F73: a ring whose closing vertex differs from the first vertex in Z only (valid for Validate,
+   which looks at X and Y) is outside wf_twkb, and the statement is false of it with and without
+   TWKBCloseRings: the implicit closure cannot carry the closing vertex's own Z *)
+Definition f73_geom : zgeom :=
+  GPoly (MkPoly XYZ [MkLine XYZ [Build_vtx 0 0 1 0; Build_vtx 1 0 2 0; Build_vtx 1 1 3 0; Build_vtx 0 0 9 0]]).
+Example f73_closing_z :
+  wf_twkb o0 f73_geom = false /\ wf_twkb_noring o0 f73_geom = false /\ wf_twkb_xyring o0 f73_geom = true /\
+  match tmarshal o0 f73_geom with Ok b => twkb_ok o0 f73_geom b | _ => true end = false.
+Proof. vm_compute. repeat split; reflexivity. Qed.
